@@ -11,7 +11,8 @@ LEVEL = "other"
 MODULE = "PropC02"
 THEOREMS = ["C02_naked_yield_is_identity", "C02_for1_is_bind_body_resume", "C02_no_yield_no_body",
             "C02_single_yield_single_body", "C02_return_in_body_abandons_generator",
-            "C02_two_yields_two_bodies_in_order", "C02_error_in_resumed_generator"]
+            "C02_two_yields_two_bodies_in_order", "C02_error_in_resumed_generator",
+            "C02_n_yields_n_bodies_in_order"]
 
 LIB = [
     "mapg = (f, it) -> for e <- it() yield f(e)",
